@@ -381,12 +381,42 @@ impl Rec {
         }
         Ok(())
     }
+    /// `p` inside the box, by plain interval arithmetic in i64 (not the library's `contains`, so a
+    /// defect of `Rectangle` is not shared by the recording targets and what they record).
+    fn in_box(&self, p: Point) -> bool {
+        let (x0, y0) = (self.bbox.top_left.x as i64, self.bbox.top_left.y as i64);
+        let (x, y) = (p.x as i64, p.y as i64);
+        x0 <= x && x < x0 + self.bbox.size.width as i64 && y0 <= y && y < y0 + self.bbox.size.height as i64
+    }
     fn set(&mut self, p: Point, c: u32) {
-        if self.bbox.contains(p) {
+        if self.in_box(p) {
             self.map.insert((p.y, p.x), c);
         } else {
             self.outside += 1;
         }
+    }
+    /// Documented meaning of `fill_solid` / `clear`: every point of `area` that lies in the box gets
+    /// colour `c`. Interval arithmetic in i64 (no `Rectangle::intersection` / `points()`); points of
+    /// `area` outside the box are counted in `outside` like everywhere else.
+    fn set_area(&mut self, area: &Rectangle, c: u32) {
+        let (ax0, ay0) = (area.top_left.x as i64, area.top_left.y as i64);
+        let (ax1, ay1) = (ax0 + area.size.width as i64, ay0 + area.size.height as i64);
+        let (bx0, by0) = (self.bbox.top_left.x as i64, self.bbox.top_left.y as i64);
+        let (bx1, by1) = (bx0 + self.bbox.size.width as i64, by0 + self.bbox.size.height as i64);
+        // (points beyond i32::MAX do not exist)
+        let lim = i32::MAX as i64 + 1;
+        let (x0, x1) = (ax0.max(bx0), ax1.min(bx1).min(lim));
+        let (y0, y1) = (ay0.max(by0), ay1.min(by1).min(lim));
+        let mut inside = 0u64;
+        if x0 < x1 && y0 < y1 {
+            for y in y0..y1 {
+                for x in x0..x1 {
+                    self.map.insert((y as i32, x as i32), c);
+                }
+            }
+            inside = ((x1 - x0) * (y1 - y0)) as u64;
+        }
+        self.outside += (area.size.width as u64 * area.size.height as u64).saturating_sub(inside);
     }
     pub fn fmt_map(&self) -> String {
         fmt_map(&self.map)
@@ -403,6 +433,48 @@ impl Rec {
             s.push('-');
         }
         s
+    }
+}
+// ---------------------------------------------------------------------------------------------
+// Digests for results too long to print. One scheme for everything (the one `tri.points` /
+// `line.points` use for their `h=` fields): h = 0; for every value v of a sequence, in order,
+// h = h * 1000003 + v (wrapping u64). Lean side: `digestStep` / `pixDigest` / `strDigest` /
+// `smallMap` / `smallText` in Driver/Util.lean.
+// ---------------------------------------------------------------------------------------------
+#[inline]
+pub fn digest_step(h: u64, v: u64) -> u64 {
+    h.wrapping_mul(1_000_003).wrapping_add(v)
+}
+/// Position- and colour-sensitive digest of a pixel map: the entries in row-major order (the
+/// iteration order of `PMap`), three steps per entry: `y + 2^31`, `x + 2^31`, `colour + 1`.
+pub fn map_digest(m: &PMap) -> u64 {
+    let mut h = 0u64;
+    for ((y, x), c) in m.iter() {
+        h = digest_step(h, (*y as i64 + (1i64 << 31)) as u64);
+        h = digest_step(h, (*x as i64 + (1i64 << 31)) as u64);
+        h = digest_step(h, *c as u64 + 1);
+    }
+    h
+}
+/// Digest of a text: one step per byte (`byte + 1`).
+pub fn str_digest(s: &str) -> u64 {
+    s.bytes().fold(0u64, |h, b| digest_step(h, b as u64 + 1))
+}
+/// Pixel map as text: in full up to `SMALL_MAP` entries, beyond `big:<entries>:<map_digest>`.
+pub const SMALL_MAP: usize = 600;
+pub fn small_map(m: &PMap) -> String {
+    if m.len() <= SMALL_MAP {
+        fmt_map(m)
+    } else {
+        format!("big:{}:{}", m.len(), map_digest(m))
+    }
+}
+/// A text in full up to `cap` bytes, beyond `big:<bytes>:<str_digest>`.
+pub fn small_text(s: String, cap: usize) -> String {
+    if s.len() <= cap {
+        s
+    } else {
+        format!("big:{}:{}", s.len(), str_digest(&s))
     }
 }
 pub fn fmt_map(m: &PMap) -> String {
@@ -515,19 +587,14 @@ impl<C: ColNum> DrawTarget for R2<C> {
     }
     fn fill_solid(&mut self, area: &Rectangle, color: C) -> Result<(), TErr> {
         self.rec.enter()?;
-        let a = area.intersection(&self.rec.bbox);
-        for p in a.points() {
-            self.rec.set(p, color.num());
-        }
+        self.rec.set_area(area, color.num());
         self.rec.log.push(Call::FillSolid(*area, color.num()));
         Ok(())
     }
     fn clear(&mut self, color: C) -> Result<(), TErr> {
         self.rec.enter()?;
         let bb = self.rec.bbox;
-        for p in bb.points() {
-            self.rec.set(p, color.num());
-        }
+        self.rec.set_area(&bb, color.num());
         self.rec.log.push(Call::Clear(color.num()));
         Ok(())
     }
